@@ -113,7 +113,8 @@ macro_rules! int_zone {
                 black_box((&a, &b, &c, &d, &e));
                 n += 5;
             }
-            for s in ["0", "1", "15", "16", "127", "128", "16383", "16384", "65536", "+5", "-1", "", "abc", "00000000000000000127", "99999999999999999999"] {
+            for s in ["0", "1", "15", "16", "127", "128", "16383", "16384", "65536", "+5", "-1", "", "abc", "00000000000000000127", "99999999999999999999",
+                      "4294967296", "4294967299", "18446744073709551616", "1\u{e9}", "\u{20ac}", "\u{1F600}1", "1\u{a0}", "\u{ff11}", "0x1", "0x\u{e9}", "+\u{20ac}", "\u{e9}5", " 1", "1 "] {
                 let r: Result<$T, _> = s.parse();
                 if let Err(err) = &r {
                     let mut sb = StackBuf::new();
